@@ -1,4 +1,4 @@
-"""C03 calculate_lm / moveTimeLM: duration = first tick at which the step budget is exhausted (judged by the proved O(1) checker)."""
+"""C03 calculate_lm / moveTimeLM: duration = first tick at which the step budget is exhausted (compared with the proved exact model, judged by the proved O(1) checker)."""
 import mpmath
 from common import cz, copt
 from plotink import ebb_calc, ebb_motion
@@ -11,7 +11,7 @@ SHARD = 500
 RULE = ("valid step-limited moves built from the checker's own case split: no reversal (both signs), reversal at tick 1, 2, 3, small, large, rate exactly zero at a tick, "
         "budget reached before / at / after the reversal, totals landing exactly on k*2^31 and k*2^31-1 (step boundaries), constant rate with exact and inexact division, "
         "budgets 1..2^31, durations up to 2^32, cleared and explicit accumulators, legacy negative budgets, and the three 'cannot move' forms; "
-        "each output (duration, position, accumulator) is decided by lm_check, which is proved equivalent to the tick-by-tick specification; "
+        "each output (duration, position, accumulator) is compared with the exact model of calculate_lm (proved correct on the domain) and decided by lm_check, which is proved equivalent to the tick-by-tick specification; "
         "non-trivial = the rate changes sign before the budget is reached, or the duration exceeds 1000 ticks")
 TRUSTED = ["the generator's own closed form is used only to pick inputs inside the property's domain (per-tick |rate| <= 2^31-1 for the whole move); the judgement is lm_check in Coq"]
 ASSUMPTIONS = ["the recurrence completes the budget with every per-tick |rate| <= 2^31-1; accumulator in [0, 2^31) or clear"]
